@@ -183,6 +183,13 @@ def Mon.beginCb (m : Mon) (i : Nat) (e : Nat) (isStart : Bool) : Mon :=
 
 def Mon.step (m : Mon) (e : Ev) : Mon :=
   if m.frozen then m else
+  -- the suspicion that a wake hit a task cancelled while asleep is about what that very wake does: it lasts
+  -- only over the wake's own built-in call (`us.write`) to the start of a panic, not over later, unrelated tokens
+  let m := if m.suspect == some "wake-after-cancelled-sleep" then
+      (match e with
+        | .x .usWrite _ | .x .panicAt _ => m
+        | _ => { m with suspect := none })
+    else m
   let m := m.checkExpect e
   let m := match e with
     | .x .curTask [i] => { m.put (m.get i) with cur := some i }
